@@ -59,10 +59,74 @@ fn differs(a: &Result<TrippyConfig, String>, b: &Result<TrippyConfig, String>) -
     }
 }
 
+/// A precedence case on one entry of a keyed table (theme colours, key bindings): the same
+/// three comparisons, with the entry given through `--tui-theme-colors` / `[theme-colors]`
+/// (`--tui-key-bindings` / `[bindings]`).  In the default comparison the file section exists
+/// (it holds some other entry), so "absent" means absent from an existing section too.
+fn keyed_case(t: &mut Tape, base: &GenConfig, theme: bool) -> Option<(String, String)> {
+    use crate::cfggen::{BINDING_DEFAULTS, COLORS, KEYS, THEME_DEFAULTS};
+    let (table, values, what_kind) = if theme { (THEME_DEFAULTS, COLORS, "theme") } else { (BINDING_DEFAULTS, KEYS, "binding") };
+    let (k, default) = table[t.pick(table.len())];
+    let x = values[t.pick(values.len())];
+    let y_pool: Vec<&str> = values.iter().copied().filter(|v| *v != x).collect();
+    let y = y_pool[t.pick(y_pool.len())];
+    let (other, other_default) = table[(table.iter().position(|(n, _)| *n == k).unwrap_or(0) + 1 + t.pick(table.len() - 1)) % table.len()];
+    let mut base = base.clone();
+    {
+        let (cli, file) = if theme { (&mut base.theme_cli, &mut base.theme_file) } else { (&mut base.bindings_cli, &mut base.bindings_file) };
+        cli.retain(|(n, _)| n != k);
+        file.retain(|(n, _)| n != k);
+    }
+    let put = |c: &GenConfig, cli: Option<&str>, file: Option<&str>, section: bool| -> GenConfig {
+        let mut c = c.clone();
+        let (l, f) = if theme { (&mut c.theme_cli, &mut c.theme_file) } else { (&mut c.bindings_cli, &mut c.bindings_file) };
+        if let Some(v) = cli {
+            l.push((k.to_string(), v.to_string()));
+        }
+        if let Some(v) = file {
+            f.push((k.to_string(), v.to_string()));
+        }
+        if section && f.is_empty() {
+            // the section exists: some other entry, at its own documented default
+            f.push((other.to_string(), other_default.to_string()));
+        }
+        c
+    };
+    let checks = [
+        ("cli-over-file", put(&base, Some(x), Some(y), false), put(&base, Some(x), None, false)),
+        ("file-as-cli", put(&base, None, Some(y), false), put(&base, Some(y), None, false)),
+        // the default is written into the file here: some default keys (",", "=") cannot
+        // be written in the comma-separated command-line form
+        ("default", put(&base, None, None, true), put(&base, None, Some(default), true)),
+    ];
+    for (what, a, b) in checks {
+        let (ra, rb) = (build(&a), build(&b));
+        if let Some(d) = differs(&ra, &rb) {
+            return Some((
+                format!("c16.precedence.{what}.{what_kind}.{k}"),
+                format!(
+                    "{what_kind} entry {k} ({what}): `{}` with file [{}] differs from `{}` with file [{}]: {d}",
+                    a.argv("FILE").join(" "),
+                    a.toml().replace('\n', "; "),
+                    b.argv("FILE").join(" "),
+                    b.toml().replace('\n', "; "),
+                ),
+            ));
+        }
+    }
+    None
+}
+
 /// One precedence case; `Some((signature, detail))` when it fails.
 pub fn run_case(seed: u64, _worker: usize) -> Option<(String, String)> {
     let mut t = Tape::from_seed(seed);
     let base = gen_config(&mut t, vec!["203.0.113.1".to_string()], None, true);
+    // one case in four is about an entry of the theme or of the key bindings
+    match t.draw(8) {
+        0 => return keyed_case(&mut t, &base, true),
+        1 => return keyed_case(&mut t, &base, false),
+        _ => {}
+    }
     let i = t.pick(OPTS.len());
     let o = &OPTS[i];
     let x = o.values[t.pick(o.values.len())];
@@ -141,6 +205,8 @@ pub fn run(batch: u64, n: u64) -> (Value, Vec<(String, u64, String)>) {
     let report = json!({
         "cases": n,
         "options_in_table": OPTS.len(),
+        "theme_entries_in_table": crate::cfggen::THEME_DEFAULTS.len(),
+        "binding_entries_in_table": crate::cfggen::BINDING_DEFAULTS.len(),
         "checks_per_case": "cli-over-file, file-as-cli, documented-default (differential on the whole TrippyConfig)",
         "failures": fails.len(),
         "note": "input enumeration on the configuration pipeline, not simulation",
